@@ -61,14 +61,23 @@ def run_case(ck, paths, aname, L, k, nt, idx):
     script = []
     for ty in range(6):
         script += ["read 0 %s" % f, "run 0 %d %d -1 -1 -1" % (nt, ty), "dump 0", "free 0"]
-    r, lrecs = common.kvdrv(paths, script, scratch=ck.scratch, timeout=1200, cpu=900)
-    ctx = {"alphabet": aname, "string": s if L <= 600 else s[:200] + "...(%d)" % L, "copies": k, "nthreads": nt, "idx": idx, "L": L}
+    env = {}
+    if L >= 500 and rng.random() < 0.6:
+        # the embedding environment enables nested parallelism: the Hirschberg halves then really run on a nested team
+        if nt == 1:
+            nt = rng.choice([2, 4])
+        env = rng.choice([{"OMP_MAX_ACTIVE_LEVELS": "2"}, {"OMP_NESTED": "true"}, {"OMP_MAX_ACTIVE_LEVELS": "3"}])
+        ck.count("cases_with_nested_parallelism_enabled")
+        script = script * 2   # schedules differ from run to run
+    r, lrecs = common.kvdrv(paths, script, env=env, scratch=ck.scratch, timeout=1200, cpu=900)
+    ctx = {"alphabet": aname, "string": s if L <= 600 else s[:200] + "...(%d)" % L, "copies": k, "nthreads": nt, "idx": idx, "L": L, "env": env}
     if ck.proc_violations(r, ctx, allow_rcs=(0,)):
         return
     reads = [x for x in lrecs if x.get("op") == "read"]
     runs = [x for x in lrecs if x.get("op") == "run"]
     dumps = [x for x in lrecs if x.get("op") == "dump"]
-    if len(runs) != 6 or len(dumps) != 6 or not reads:
+    nrep = 2 if env else 1
+    if len(runs) != 6 * nrep or len(dumps) != 6 * nrep or not reads:
         ck.note_inconclusive("c08: incomplete driver output")
         return
     bt = reads[0]["biotype"]
@@ -78,17 +87,18 @@ def run_case(ck, paths, aname, L, k, nt, idx):
         return
     words = {0: "dna", 1: "internal", 2: "rna", 3: "protein", 4: "divergent", 5: None}
     evaluated = False
-    for ty in range(6):
+    for ty_ in range(6 * nrep):
+        ty = ty_ % 6
         w = words[ty]
         if w not in kal.ADMISSIBLE[kind]:
             continue
         ck.count("runs")
         ck.count("runs_%s_%s" % (kind, w or "undefined"))
         c2 = dict(ctx, type=w, detected=kind)
-        if runs[ty]["rc"] != 0:
+        if runs[ty_]["rc"] != 0:
             ck.violation("run-failed:%s:%s" % (kind, w), "kalign_run failed for %d identical %s sequences with admissible type %s" % (k, kind, w), c2)
             continue
-        rows = [x["seq"] for x in dumps[ty]["rows"]]
+        rows = [x["seq"] for x in dumps[ty_]["rows"]]
         evaluated = True
         if len(rows) != k:
             ck.violation("row-count", "%d rows for %d copies" % (len(rows), k), c2)
@@ -173,7 +183,7 @@ def run(ck, tier):
     common.pmap(lambda j: run_case(ck, paths, *j), jobs, workers=12)
     ck.rule = ("k copies of one string (alphabets: ACGT, +N, +U, realistic and uniform IUPAC, 20 amino acids, +B/Z/X, all-N, all-X, N-rich (55..97% N), X-rich (60..95% X/U/J/O), one letter repeated, "
                "low-complexity repeats; lengths 1..5000 incl. 499/500/501; copies 2..500 incl. 99/100/101) aligned with every type admissible for the kind "
-               "kalign detects plus 'undefined', default penalties, 1..16 threads; each row must equal the input string. Distinct = (alphabet, length, copies, string).")
+               "kalign detects plus 'undefined', default penalties, 1..16 threads, for lengths >= 500 also with nested OpenMP parallelism enabled in the environment; each row must equal the input string. Distinct = (alphabet, length, copies, string).")
     ck.assumptions = ["default penalties only (with user penalties of 0 gapped alignments tie with the diagonal)", "kind as detected by kalign_read_input"]
 
 
